@@ -58,6 +58,40 @@ func c06StringAt(idx int) string {
 	return strings.Join(parts[:k], "")
 }
 
+// structured family aimed at the validator's "slash, filler, slash" rule: "/" + every sequence of <=3 (quick) / <=5 (thorough)
+// fillers + "/" or "\\" + host. Quantifier or character-class slips in that rule need exactly these strings.
+var c06Fillers = []string{"\t", "\n", "\r", " ", "\x0b", "\x0c", ".", "..", "/", "\\", "%09", "x"}
+
+func c06FamilyCount(maxFill int) int {
+	total, p := 0, 1
+	for k := 0; k <= maxFill; k++ {
+		total += p
+		p *= len(c06Fillers)
+	}
+	return total * 2
+}
+
+func c06FamilyAt(idx int) string {
+	sep := "/"
+	if idx%2 == 1 {
+		sep = "\\"
+	}
+	idx /= 2
+	n := len(c06Fillers)
+	k, p := 0, 1
+	for idx >= p {
+		idx -= p
+		p *= n
+		k++
+	}
+	var parts [8]string
+	for j := k - 1; j >= 0; j-- {
+		parts[j] = c06Fillers[idx%n]
+		idx /= n
+	}
+	return "/" + strings.Join(parts[:k], "") + sep + "evil.test/p"
+}
+
 func c06Mix(x uint64) uint64 {
 	x += 0x9e3779b97f4a7c15
 	x = (x ^ (x >> 30)) * 0xbf58476d1ce4e5b9
